@@ -76,7 +76,7 @@ PLANS["C01"] = p_c01
 ALLC_WU = "OK,ERROR,DATA_OK,DATA_NEXT,NEXT,HOLD,HEXIT_OK,HEXIT_ERR,LIST,-2,9"
 ALLC_RT = "OK,ERROR,DATA_OK,DATA_NEXT,NEXT,HOLD,LIST"
 ALLE = "OK,ERROR,DATA_OK,DATA_NEXT,NEXT,HEXIT_OK,HEXIT_ERR,LIST,-2,9"
-T_CODES = "+W:W;+V:W,vu1rw/w,vi1rw/w;+R:R,vu1rw/r,vu1ro/r;+N:R;+U:U;+T:T,vu1rw@x,D=dd;+M:T||+e:R,vu1ro/r;+f:T,D=ee;+g:R"
+T_CODES = "+W:W;+V:W,vu1rw/w,vi1rw/w;+R:R,vu1rw/r,vu1ro/r;+N:R;+U:U;+T:T,vu1rw@x,vi1ro,D=dd;+M:T||+e:R,vu1ro/r,vi1rw;+f:T,vu1ro,vx1wo@y,D=ee;+g:R"
 
 
 def c10_shards(tier, mon="C10", prop="C10"):
@@ -87,13 +87,13 @@ def c10_shards(tier, mon="C10", prop="C10"):
         for shared in (0, 1):
             # command machine, one command kind per shard
             for nm, alpha, sm in (("W", "+WV", 4), ("R", "+RN", 2), ("U", "+U", 1), ("T", "+TM", 8)):
-                sh.append(mcx("codes-cmd-%s-tok%d-sh%d" % (nm, tok, shared), prop=prop, table=T_CODES, cap=24, shared=shared, name_alpha=alpha, max_name=2,
+                sh.append(mcx("codes-cmd-%s-tok%d-sh%d" % (nm, tok, shared), prop=prop, table=T_CODES, cap=40, shared=shared, name_alpha=alpha, max_name=2,
                               args_alpha="1,", max_args=3, suffix_mask=sm, lines=1, refuse_read=1, refuse_write=1,
                               codes_W=ALLC_WU, codes_U=ALLC_WU, codes_R=ALLC_RT, codes_T=ALLC_RT, max_inv=inv, tok=tok, varcb_fail=1, act="hold", mon=mon))
             # event machine
             # separate buffers of different sizes: the event handlers must be told the capacity of *their* buffer
-            for ub in ((24,) if shared else (24, 16, 40)):
-                sh.append(mcx("codes-evt-tok%d-sh%d-ub%d" % (tok, shared, ub), prop=prop, table=T_CODES, cap=24, shared=shared, ubuf=ub, name_alpha="+U", max_name=2, suffix_mask=1,
+            for ub in ((40,) if shared else (40, 34, 48)):
+                sh.append(mcx("codes-evt-tok%d-sh%d-ub%d" % (tok, shared, ub), prop=prop, table=T_CODES, cap=40, shared=shared, ubuf=ub, name_alpha="+U", max_name=2, suffix_mask=1,
                               lines=1, refuse_read=1, refuse_write=1, codes_U="OK,HOLD", ecodes_R=ALLE, ecodes_T=ALLE, max_inv=inv, tok=tok, varcb_fail=1,
                               ev="+e:R,+f:T,+g:R", act="trigger,hold", trig_budget=2, mon=mon))
     return sh
@@ -155,7 +155,7 @@ def p_c12(tier):
         a = list(s["args"]); a[a.index("--mon") + 1] = "C12"; a[a.index("--prop") + 1] = "C12"
         sh.append({"tag": "stutter-" + s["tag"], "bin": s["bin"], "args": a})
     for s in c10_shards(tier, mon="C12", prop="C12"):
-        if "-sh0" in s["tag"] and "ub16" not in s["tag"] and "ub40" not in s["tag"]:
+        if "-sh0" in s["tag"] and "ub34" not in s["tag"] and "ub48" not in s["tag"]:
             sh.append({"tag": "stutter-" + s["tag"], "bin": s["bin"], "args": s["args"]})
     # black box: failed reads scribble over *ch; every schedule must still agree with the reference
     quick = tier == "quick"
@@ -494,7 +494,7 @@ def p_c03(tier):
     for ring in (1, 2):
         sh.append(duplex("asan-duplex-r%d" % ring, ring, 1, 2, "C03", "C03", asan=True))
     for s in c10_shards("quick", mon="C03", prop="C03"):
-        if "tok1-sh1" in s["tag"] or "ub16" in s["tag"]:
+        if "tok1-sh1" in s["tag"] or "ub34" in s["tag"]:
             sh.append({"tag": "asan-" + s["tag"], "bin": s["bin"].replace("mcx_", "mcxasan_"), "args": s["args"]})
     for ring in (2, 3):
         sh.append(mcx("asan-queue-alone-r%d" % ring, ring=ring, asan=True, prop="C03", table=T_Q, cap=12, shared=1, gen_mode="none", refuse_write=1,
